@@ -24,7 +24,7 @@ ATTRS = {
     "GMMStats.t": "S []", "GMMStats.n": "S [C]", "GMMStats.sum_px": "U S [C,D]", "GMMStats.sum_pxx": "U2 S [C,D]",
     "GMMStats.log_likelihood": "LOG U-d S []", "GMMStats.n_gaussians": "count:C", "GMMStats.n_features": "count:D",
     # ---- KMeansMachine -----------------------------------------------------------------------------
-    "KMeansMachine.centroids_": "U [C,D]", "KMeansMachine.average_min_distance": "U2 []", "KMeansMachine.n_clusters": "count:C",
+    "KMeansMachine.centroids_": "U eqv [C,D]", "KMeansMachine.average_min_distance": "U2 []", "KMeansMachine.n_clusters": "count:C",
     "KMeansMachine.max_iter": "*", "KMeansMachine.convergence_threshold": "*", "KMeansMachine.init_method": "?", "KMeansMachine.random_state": "?",
     "KMeansMachine.init_max_iter": "?", "KMeansMachine.oversampling_factor": "?",
     # ---- IVector -------------------------------------------------------------------------------------
@@ -38,7 +38,7 @@ ATTRS = {
     "FactorAnalysisBase.ubm": "obj:GMMMachine", "FactorAnalysisBase.r_U": "count:R", "FactorAnalysisBase.r_V": "count:R",
     "FactorAnalysisBase.relevance_factor": "*", "FactorAnalysisBase.em_iterations": "*", "FactorAnalysisBase.enroll_iterations": "*", "FactorAnalysisBase.random_state": "?",
     # ---- linear transforms -------------------------------------------------------------------------------
-    "WCCN.weights": "U-1 K0.5", "WCCN.input_subtract": "*", "WCCN.input_divide": "*", "WCCN.pinv": "?",
+    "WCCN.weights": "U-1 K0.5 S-0.5", "WCCN.input_subtract": "*", "WCCN.input_divide": "*", "WCCN.pinv": "?",
     "Whitening.weights": "U-1", "Whitening.input_subtract": "U", "Whitening.input_divide": "*", "Whitening.pinv": "?",
 }
 
@@ -46,8 +46,8 @@ RETURNS = {
     "gmm:log_weighted_likelihood": "LOG U-d -halfc2pi [C,N]",
     "gmm:log_likelihood": "LOG U-d -halfc2pi [N]",
     "gmm:reduce_loglikelihood": "LOG U-d -halfc2pi [N]",
-    "kmeans:get_centroids_distance": "U2 [C,N]",
-    "kmeans:e_step": "tuple:S [C]|U S [C,D]|U2 S []",
+    "kmeans:get_centroids_distance": "U2 inv [C,N]",
+    "kmeans:e_step": "tuple:S [C]|U S [C,D]|U2 S inv []",
     "kmeans:m_step": "tuple:U [C,D]|U2 []",
     "kmeans:reduce_indices_means_vars": "tuple:U2 [C,D]|1 [C]",
     "kmeans:KMeansMachine.get_variances_and_weights_for_each_cluster": "tuple:U2 [C,D]|1 [C]",
